@@ -87,7 +87,11 @@ def run(ctx):
     # ... and the reported outcome of requirement_constraint_evaluation follows that state
     want_outcome = {V.FULFILLED: (True, True), V.NEUTRAL: (True, False), V.UNFULFILLED: (False, True), V.UNKNOWN: (None, None)}
     for (t, rho), (tag, v) in zip(RC_LEVEL.get("cases", []), RC_LEVEL.get("raws", [])):
-        if not (exprs.dom(t) and exprs.valid(t)) or tag != "ok":
+        if not (exprs.dom(t) and exprs.valid(t)):
+            continue
+        if tag != "ok":
+            ctx.fail(f"{exprs.show(t)}|{tuple(sorted(rho.items()))}|outcome-raises", {"expression": exprs.show(t), "rc": rho}, "a reported outcome", f"raises {v}",
+                     "oracle: requirement_constraint_evaluation of a valid in-domain expression with a total assignment must not raise")
             continue
         want = want_outcome[exprs.sem(t, {k: V[s] for k, s in rho.items()}, V)]
         got = (v.requirement_constraints_fulfilled, v.requirement_is_conditional)
